@@ -145,6 +145,53 @@ def run(ctx):
                     if bad <= 5:
                         ctx.violation('an amount string with a denominator symbol is not parsed to the exact amount',
                                       {'op': 'parse_symbol', 'amount': amount, 'network': net, 'observed': got, 'expected_satoshi': int(want)})
+    # ---- the same over the whole supply range: exact decimal text of n satoshi in every unit -------------------------------
+    from decimal import Decimal
+    codes = {NETWORK_DEFINITIONS[n]['currency_code'].upper() for n in NETWORK_DEFINITIONS}
+    big = [SUPPLY - rng.randrange(2000) for _ in range(40 if not T else 400)] + [rng.randrange(SUPPLY + 1) for _ in range(40 if not T else 400)]
+    for net in ('bitcoin', 'litecoin', 'dogecoin', 'testnet'):
+        nw = Network(net)
+        code = nw.currency_code
+        for den, sym in dens:
+            if (sym + code).upper() in codes and sym:
+                continue                      # 'TBTC' is the testnet currency, not tera-BTC
+            fden = Fraction(str(den)) if den < 1 else Fraction(int(den))
+            unit_sat = fden / Fraction(str(nw.denominator))
+            for n in rng.sample(big, 12 if not T else 120):
+                q = Fraction(n) / unit_sat
+                txt = format(Decimal(q.numerator) / Decimal(q.denominator), 'f')
+                if Fraction(txt) != q:
+                    continue
+                amount = '%s %s%s' % (txt, sym, code)
+                ctx.evals += 1
+                ctx.count('parse-with-symbol-large:' + (sym or 'unit'))
+                ctx.nontrivial.add(hash(amount))
+                try:
+                    got = value_to_satoshi(amount, network=nw)
+                except Exception as ex:
+                    got = 'raise:%s' % type(ex).__name__
+                if got != n:
+                    bad += 1
+                    if bad <= 8:
+                        ctx.violation('an amount string with a denominator symbol is not parsed to the exact amount',
+                                      {'op': 'parse_symbol', 'amount': amount, 'network': net, 'observed': got, 'expected_satoshi': n})
+    # ---- Value.from_satoshi(n, <denominator>) holds exactly n, whatever unit it is asked to be shown in ----------------------
+    bad2 = 0
+    for den, sym in dens:
+        for arg in ((den, sym) if sym else (den,)):
+            for n in rng.sample(big, 30 if not T else 300) + rng.sample(ns, 30 if not T else 300):
+                ctx.evals += 1
+                ctx.count('from_satoshi-with-denominator:' + (sym or 'unit'))
+                ctx.nontrivial.add(hash(('fsd', n, arg)))
+                try:
+                    got = Value.from_satoshi(n, arg).value_sat
+                except Exception as ex:
+                    got = 'raise:%s' % type(ex).__name__
+                if got != n:
+                    bad2 += 1
+                    if bad2 <= 8:
+                        ctx.violation('Value.from_satoshi(n, denominator) does not hold n smallest units',
+                                      {'op': 'from_satoshi_den', 'n': n, 'denominator': repr(arg), 'observed': got})
     ctx.exhaustive = False
     ctx.assumptions += ['IEEE-754 binary64 round-to-nearest-even and CPython\'s correctly rounded float(str), round(), %.Nf are modelled exactly on rationals; '
                         'the model is validated against CPython on every run',
